@@ -81,6 +81,11 @@ def run_one(m: Mutant, src_root: str = "/repo") -> dict:
             hit = [o for o in viol if (m.hits in o.rule or m.hits in o.instance or m.hits in o.detail)] if m.hits else viol
             if hit:
                 return {"name": m.name, "status": "killed", "detail": f"{hit[0].rule}:{hit[0].instance} @ {hit[0].loc}"}
+            masked = [o for o in ctx.obligations if not o.ok and o.key(m.prop) in known and (not m.hits or m.hits in o.rule or m.hits in o.instance or m.hits in o.detail)]
+            if masked:
+                # the mutant breaks the very clause a recorded known finding already breaks on this tree: by design
+                # (findings are keyed by rule+function+instance) it cannot be told apart from the recorded defect
+                return {"name": m.name, "status": "masked-known", "detail": f"{masked[0].rule}:{masked[0].instance} is a recorded known finding"}
             return {"name": m.name, "status": "MISSED", "detail": f"{len(viol)} other violations" if viol else "no violation reported"}
         if viol:
             return {"name": m.name, "status": "FALSE-ALARM", "detail": f"{viol[0].rule}:{viol[0].instance} -- {viol[0].detail}"}
@@ -102,6 +107,7 @@ def run_corpus(prop: str, *, src_root: str = "/repo", workers: int = 16) -> dict
         "mutants_analysis_error": sum(r["status"] == "analysis-error" for r in results),
         "twins_clean": sum(r["status"] == "clean-ok" for r in results),
         "mutants_stale": sum(r["status"] == "stale" for r in results),
+        "mutants_masked_by_known_finding": sum(r["status"] == "masked-known" for r in results),
         "mutant_results": results,
     }
     if bad:
@@ -121,7 +127,7 @@ def main(argv: list[str]) -> int:
         with ProcessPoolExecutor(max_workers=16) as ex:
             results = list(ex.map(run_one, corpus))
         for r in results:
-            flag = "" if r["status"] in ("killed", "clean-ok") else "   <<<<<<"
+            flag = "" if r["status"] in ("killed", "clean-ok", "masked-known") else "   <<<<<<"
             print(f"{p} {r['status']:14s} {r['name']}: {r['detail']}{flag}")
             if flag and r["status"] != "stale":
                 rc = 1
